@@ -14,7 +14,7 @@ MOD = 'checks.c15'
 SHRINK_FIELDS = ['ro_xml', 'msg_xml']
 RULE = (
     "Cases: (a) exhaustive - running orders of 1-3 stories where each story independently carries "
-    "each of the 8 timing shapes (no metadata, metadata without payload, empty payload, "
+    "each of the 11 timing shapes (no metadata, metadata without payload, empty payload, present-but-empty StoryDuration / TextTime / StoryStarted / StoryEnded tags, "
     "StoryDuration, TextTime, MediaTime, TextTime+MediaTime, all three) x roEdStart in {absent, "
     "empty, set}; items with every subset of {itemSlug, objID, mosID, objType} and every note shape; "
     "(b) Hypothesis rich running orders with any subset of the optional data per story/item; (c) "
@@ -224,6 +224,12 @@ TIMING_SHAPES = {
     'all': lambda: B.timing_block({'MediaTime': '3', 'StoryDuration': '9', 'TextTime': '2',
                                    'StoryStarted': '2020-01-01T12:31:00', 'StoryEnded': '2020-01-01T12:32:00'}),
 }
+# present-but-empty timing tags (a field the newsroom system has not filled in yet)
+TIMING_SHAPES.update({
+    'empty-dur': lambda: B.timing_block({'StoryDuration': None, 'TextTime': '2'}),
+    'empty-tt': lambda: B.timing_block({'TextTime': None, 'MediaTime': '3'}),
+    'empty-times': lambda: B.timing_block({'StoryDuration': '4', 'StoryStarted': None, 'StoryEnded': None}),
+})
 NOTES = [None, ('note', 'a note'), ('note', ''), ('nested', 'n'), ('other', 'cue'), ('empty', '')]
 
 
@@ -249,7 +255,7 @@ def shard_exhaustive(args):
             case = {'ro_xml': ro_xml}
             cl = _classes(ro_xml) + ['exhaustive-timing-shapes']
             col.record(case, 'mixed-timing' in cl, cl, rejudge(case), key=h64(ro_xml))
-    col.scopes.append(f'accessors: {n} stories x 8 timing shapes each x 3 roEdStart shapes; item option subsets cycled')
+    col.scopes.append(f'accessors: {n} stories x 11 timing shapes each x 3 roEdStart shapes; item option subsets cycled')
     return col
 
 
